@@ -134,7 +134,7 @@ def impl_proto(case) -> str:
         elif k == "lost":
             proto.connectionLost(TFailure(ConnectionDone()))
     return (",".join(fired) + "|" + b"".join(got).hex() + "|" + ",".join(closed)
-            + f"|s{producer.stops if producer else 0}")
+            + f"|s{producer.stops if producer else 0}" + "|a" + ("T" if box["delivered"] else "F"))
 
 
 def impl_two(case) -> str:
@@ -448,9 +448,9 @@ def expected(case):
 
 
 def oracle_proto(case, obs):
-    if obs.count("|") != 3:
+    if obs.count("|") != 4:
         return Failure(case, "driver anomaly: " + obs[:100], "driver")
-    fired_s, deliv_hex, closed_s, _stops = obs.split("|")
+    fired_s, deliv_hex, closed_s, _stops, asked = obs.split("|")
     fired = fired_s.split(",") if fired_s else []
     closed = closed_s.split(",") if closed_s else []
     ops = [o[0] for o in case["ops"]]
@@ -472,6 +472,10 @@ def oracle_proto(case, obs):
             tag = "deferred-never-fired"
         return Failure(case, f"the connection was lost / the request cancelled but the request Deferred never fired "
                        f"(ops {ops})", tag)
+    if "lost" in ops and asked == "aT" and len(closed) != 1:
+        return Failure(case, f"deliverBody was called and the connection is lost, but the consumer's connectionLost was "
+                       f"called {len(closed)} times (ops {ops})",
+                       "consumer-never-closed-after-abort" if "abort" in ops else "consumer-never-closed")
     if case["transmitting"]:
         # the connection goes away (loss or abort) before anything arrived and while the body is still being
         # produced: the producer must be told to stop
@@ -964,8 +968,32 @@ def gen_two(rng, tier):
     return out
 
 
+def _abort_block(rng, tier):
+    """abort() at every point of the exchange, for every body framing, with a consumer attached before or after it,
+    then the loss"""
+    out = []
+    for wire, body in PROTO_WIRES:
+        if body is None:
+            continue
+        head = wire.index(b"\r\n\r\n") + 4 if b"\r\n\r\n" in wire else len(wire)
+        pts = sorted({0, 1, head - 1, head, min(head + 1, len(wire)), len(wire) - 1, len(wire)}) if tier == "quick" \
+            else range(len(wire) + 1)
+        for t in pts:
+            if not 0 <= t <= len(wire):
+                continue
+            first = [["data", x.hex()] for x in _segment(rng, wire[:t])]
+            rest = [["data", x.hex()] for x in _segment(rng, wire[t:])]
+            for ops in (first + [["deliver"], ["abort"]] + rest + [["deliver"], ["lost"]],
+                        first + [["abort"], ["deliver"]] + rest + [["lost"], ["deliver"]],
+                        first + [["deliver"], ["abort"], ["lost"]],
+                        first + [["abort"]] + rest + [["lost"], ["deliver"]]):
+                out.append({"kind": "proto", "transmitting": False, "method": b"GET".hex(), "persistent": rng.random() < 0.5,
+                            "ops": ops, "body": body.hex()})
+    return out
+
+
 def gen_proto(rng, tier):
-    return [_proto_case(rng) for _ in range(700 if tier == "quick" else 12000)]
+    return _abort_block(rng, tier) + [_proto_case(rng) for _ in range(700 if tier == "quick" else 12000)]
 
 
 def corpus():
